@@ -71,7 +71,7 @@ func c05Variants() []protoVariant {
 
 func c05(r *hx.Run) {
 	fx.Quiet()
-	r.Rule = "bounded-exhaustive enumeration of (anchorFrom, anchorUntil) around every boundary of anchoring time T=1000 x operation type x protocol configurations varying the time delta independently of every other parameter (including the genesis time of the version); each case is executed on the real processor/applier (effect) and the real parser with a spy time validator (intake) and compared with the independent window predicate. Non-trivial: the window is declared (from or until non-zero)."
+	r.Rule = "bounded-exhaustive enumeration of (anchorFrom, anchorUntil) around every boundary of anchoring time T=1000 (incl. negative bounds) x operation type x protocol configurations varying the time delta independently of every other parameter (including the genesis time of the version); each case is executed on the real processor/applier (effect) and the real parser with a spy time validator (intake) and compared with the independent window predicate. Non-trivial: the window is declared (from or until non-zero)."
 	const T = 1000
 	kt, code := fx.Ed25519, fx.SHA256
 	keys := map[string]*fx.Key{}
@@ -106,6 +106,11 @@ func c05(r *hx.Run) {
 			for _, u := range []int64{T - 1, T, T + 1, T + 5, f + d, f + d + 1} {
 				wins = append(wins, win{f, u})
 			}
+		}
+		// negative bounds (the members are signed integers and nothing forbids them): a window that ended before time zero is
+		// empty, one that starts before time zero and has its end defaulted ends at from + delta
+		for _, w := range []win{{0, -1}, {-5, -1}, {-1, 0}, {-d - 1, 0}, {T - d - 1 - (1 << 40), 0}, {-5, T}, {-5, T - 1}, {-(1 << 50), T + 5}, {T, -1}} {
+			wins = append(wins, w)
 		}
 		for _, typ := range []string{"update", "recover", "deactivate"} {
 			for _, w := range wins {
